@@ -141,6 +141,7 @@ def check(prog: Program, rep: Report, relpaths: Iterable[str], clause="G1", floo
                    nontrivial=False)
     rep.floor("G1 function scopes analysed", n_funcs, floor)
     late_binding(prog, rep, relpaths, clause=clause)
+    shared_class_state(prog, rep, relpaths, clause=clause)
 
 
 def _strip_comp(qual: str) -> str:
@@ -264,3 +265,83 @@ def late_binding(prog: Program, rep: Report, relpaths: Iterable[str], clause="G1
             rep.ok(LB_RULE, m, "no-late-binding-closure", "no escaping closure over a loop-bound variable", clause=clause,
                    nontrivial=False)
     return n_loops
+
+
+# ---- mutable class-level containers written through instances -----------------------------------------------------------------
+SC_RULE = "G1.shared-class-state"
+SC_TEXT = ("a mutable container declared in a class body ({} / [] / set() / dict() / list()) and never re-bound per instance is one "
+           "object shared by all instances.  Where a method stores into it through self, the stored value must not depend on "
+           "instance attributes that the key does not depend on (for a keyless append / add: on no instance attribute at all) - "
+           "otherwise one instance's configuration answers the lookups of every other instance with the same key")
+
+
+def shared_class_state(prog: Program, rep: Report, relpaths: Iterable[str], clause="G1"):
+    from ..deps import Deps
+    from ..fa import fa_of
+    rep.rule(SC_RULE, SC_TEXT)
+    n = 0
+    for rel in relpaths:
+        m = prog.raw.module(rel)
+        for b in m.bindings.values():
+            if b[0] != "class" or b[1].module is not m:
+                continue
+            C = b[1]
+            shared = {}
+            for a, v in C.class_attrs.items():
+                if isinstance(v, (ast.Dict, ast.List, ast.Set)) or (isinstance(v, ast.Call) and isinstance(v.func, ast.Name)
+                                                                   and v.func.id in ("dict", "list", "set", "defaultdict",
+                                                                                     "OrderedDict")):
+                    shared[a] = v
+            if not shared:
+                continue
+            # re-bound per instance anywhere (self.a = ...)?  then it is instance state
+            for fi in C.methods.values():
+                ps = fi.params()
+                for st in ast.walk(fi.node):
+                    if isinstance(st, (ast.Assign, ast.AnnAssign)):
+                        for t in (st.targets if isinstance(st, ast.Assign) else [st.target]):
+                            if isinstance(t, ast.Attribute) and isinstance(t.value, ast.Name) and ps and t.value.id == ps[0]:
+                                shared.pop(t.attr, None)
+            for a in sorted(shared):
+                n += 1
+                bad = []
+                for fi in C.methods.values():
+                    ps = fi.params()
+                    if not ps or fi.is_static:
+                        continue
+                    me = ps[0]
+                    fa = fa_of(prog.raw, fi)
+                    dep = Deps(fa, control=True)
+
+                    def attrs_of(e, at):
+                        return {x[1] for x in dep.of(e, at) if x[0] == "self"} - {a}
+
+                    for nn, nd in fa.cfg.nodes.items():
+                        st = nd.ast if nd.kind == "stmt" else None
+                        if isinstance(st, ast.Assign):
+                            for t in st.targets:
+                                if isinstance(t, ast.Subscript) and isinstance(t.value, ast.Attribute) and t.value.attr == a \
+                                        and isinstance(t.value.value, ast.Name) and t.value.value.id == me:
+                                    extra = attrs_of(st.value, nn) - attrs_of(t.slice, nn)
+                                    if extra:
+                                        bad.append((st.lineno, f"{fi.name} stores a value that depends on self.{', self.'.join(sorted(extra))} "
+                                                               f"under a key that does not"))
+                        for c in fa.cfg.calls_at(nn):
+                            f = c.func
+                            if isinstance(f, ast.Attribute) and isinstance(f.value, ast.Attribute) and f.value.attr == a and \
+                                    isinstance(f.value.value, ast.Name) and f.value.value.id == me and c.args:
+                                if f.attr in ("append", "add", "extend", "insert"):
+                                    extra = attrs_of(c.args[-1], nn)
+                                    if extra:
+                                        bad.append((c.lineno, f"{fi.name} appends a value that depends on self.{', self.'.join(sorted(extra))}"))
+                                elif f.attr == "setdefault" and len(c.args) == 2:
+                                    extra = attrs_of(c.args[1], nn) - attrs_of(c.args[0], nn)
+                                    if extra:
+                                        bad.append((c.lineno, f"{fi.name} setdefaults a value that depends on self.{', self.'.join(sorted(extra))} "
+                                                              f"under a key that does not"))
+                o = rep.decide(not bad, SC_RULE, m, f"class-attribute:{C.name}.{a}", "not written through instances with "
+                               "instance-dependent values", "; ".join(f"{w} (line {ln})" for ln, w in bad[:3]) +
+                               f": {C.name}.{a} is shared by all instances, so the first instance to fill an entry decides it for all "
+                               f"others", line=bad[0][0] if bad else C.node.lineno, clause=clause)
+                o.func = C.name
+    return n
